@@ -89,12 +89,12 @@ fn main_check(ctx: &Ctx) -> Outcome {
                 evals.fetch_add(1, Ordering::Relaxed);
                 let mut imp = st.imp.clone();
                 let mut model = st.model.clone();
-                let r = wincon_step(&mut imp, &mut model, &chunk);
+                let r = guard(|| wincon_step(&mut imp, &mut model, &chunk)).and_then(|r| r);
                 let r = r.and_then(|runs| {
                     local.insert(hash_of(&runs));
                     // differential clause
                     let mut imp2 = st.imp.clone();
-                    let a: Vec<_> = merge_real(imp2.extract_next(&chunk_sep).collect());
+                    let a: Vec<_> = guard(|| merge_real(imp2.extract_next(&chunk_sep).collect()))?;
                     if a != runs {
                         return Err(format!(
                             "combined sequence and separate sequences disagree: combined {:?} vs separate {:?}",
